@@ -28,6 +28,55 @@ def directed_f2(ctx):
     finally:
         sb.close()
 
+def failed_then_retry_stream(ctx, n):
+    """a deploy that fails part-way (injected I/O error or abort at a random fault point), then the plain retry:
+    after the retry SUCCEEDS the world is converged exactly as after an uninterrupted deploy — every desired output holds
+    its bytes, every output recorded before the failed run that is no longer desired is gone, and one more deploy is a no-op"""
+    import hashlib
+    from vlib.impl import Sandbox
+    rng = ctx.rng
+    for i in range(n):
+        sb = Sandbox('c05x'); sb.git_init_project()
+        try:
+            cw = ds.CfgWorld(sb, rng); ds.setup_all_targets(cw, rng); cw.write()
+            sb.cli_json(['deploy', '--apply', '--yes', '--adopt'])
+            ids = ds.Ids()
+            before = ds.world_tree(sb)
+            recorded = set()      # (target, path, recording root): a record is consulted only while ITS root is a root of the run
+            for r0 in ds.relR(cw.roots(None), sb.root):
+                for t0, q0 in ds.accepted_entries(before, [r0], ids):
+                    recorded.add((t0, q0, r0['root']))
+            tags = []
+            for _ in range(rng.randrange(1, 3)): tags.append('cfg:' + cw.edit_config())
+            on = [m for m in cw.modules if m['enabled']]
+            if on and rng.random() < 0.7: rng.choice(on)['enabled'] = False; tags.append('cfg:disable')
+            if rng.random() < 0.7: cw.add_prompt(); tags.append('cfg:add_prompt')
+            cw.write()
+            k = rng.randrange(1, 50); kind = rng.choice(['EIO', 'EACCES', 'ENOSPC', 'abort'])
+            p = sb.cli(['deploy', '--apply', '--yes', '--adopt', '--json'], extra_env={'AGENTPACK_VERIF_FAULT': '%d:%s' % (k, kind)})
+            failed = p.returncode != 0
+            rc, doc, out, err = sb.cli_json(['deploy', '--apply', '--yes', '--adopt'])
+            rec = {'stream': 'failed_then_retry', 'index': i, 'fault': '%d:%s' % (k, kind), 'first_failed': failed, 'tags': tags,
+                   'config': {'opts': cw.opts, 'modules': [(m['id'], m['enabled']) for m in cw.modules]}}
+            ctx.count('failed_then_retry', key=(kind, failed, k // 8, tuple(tags)), nontrivial=failed, tags=['fault:' + kind, 'failed' if failed else 'completed'] + tags)
+            if not (doc and doc.get('ok')):
+                ctx.notes.append('failed_then_retry %d: retry not judged (%s)' % (i, out[:120])); continue
+            after = ds.world_tree(sb)
+            D = ds.relD(cw.desired(None), sb.root)
+            dpaths = {d['path'] for d in D}
+            for d in D:
+                if after.get(d['path']) != d['bytes']:
+                    ctx.violation('after a failed deploy and a successful retry %s does not hold its desired bytes' % d['path'], dict(rec, path=d['path'])); break
+            roots_now = ds.relR(cw.roots(None), sb.root)
+            for t, q, rr in sorted(recorded):
+                if q not in dpaths and q in after and any(r['target'] == t and r['root'] == rr for r in roots_now):
+                    ctx.violation('after a failed deploy and a successful retry the output %s — recorded before, no longer desired — is still there' % q, dict(rec, path=q)); break
+            rc2, doc2, out2, err2 = sb.cli_json(['deploy', '--apply', '--yes', '--adopt'])
+            if doc2 and doc2.get('ok') and doc2['data'].get('applied'):
+                ctx.violation('after a failed deploy and a successful retry one more deploy applied again (not converged)', rec)
+        finally:
+            sb.close()
+
 def run(ctx):
     quick = ctx.tier == 'quick'
     ctx.rule = ('edit_hist: histories of configuration edits (content, enable/disable, option flips that switch roots off, module removal) and user '
@@ -44,6 +93,7 @@ def run(ctx):
     ds.run_cli_stream(ctx, 8 if quick else 120, 5, props={'C05'}, stream='lost_manifest', idempotence=True, script=ds.script_lost_manifest_idempotence)
     ds.run_cli_stream(ctx, 6 if quick else 100, 8, props={'C05'}, stream='shared_root', idempotence=True, script=ds.script_shared_root_filter, setup=ds.setup_shared_root)
     ds.run_cli_stream(ctx, 8 if quick else 100, 8, props={'C05'}, stream='last_module_removed', idempotence=True, script=ds.script_last_module_removed, setup=ds.setup_all_targets)
+    failed_then_retry_stream(ctx, 16 if quick else 250)
     ds.run_cli_stream(ctx, 6 if quick else 100, 6, props={'C05'}, stream='eol_only', idempotence=True, script=ds.script_eol_only, setup=ds.setup_all_targets)
     ds.run_cli_stream(ctx, 6 if quick else 100, 6, props={'C05'}, stream='backported_edit', idempotence=True, script=ds.script_backported_edit, setup=ds.setup_all_targets)
     ds.run_lib_stream(ctx, 60 if quick else 1500, props={'C05'})
